@@ -62,7 +62,7 @@ func checkC20(w *World, r *Report) {
 	r.Analysed(FuncName(fn))
 
 	// ---- C20.1
-	ru := r.Rule("C20.1", "one record, after the handler: the call of next dominates every log emission, and every path from entry to return passes exactly one emission", 2)
+	ru := r.Rule("C20.1", "one record, after the handler: the call of next dominates every log emission, and every path from entry to return passes exactly one emission", 1)
 	var next *ssa.Call
 	var emits []*ssa.Call
 	eachInstr(fn, func(in ssa.Instruction) {
@@ -127,7 +127,7 @@ func checkC20(w *World, r *Report) {
 type ivl struct{ lo, hi int64 }
 
 func checkC20Level(w *World, r *Report, logger *ssa.Function, emits []*ssa.Call) {
-	ru := r.Rule("C20.2", "status -> level: the level function compares its argument only with constants; the interval map extracted from its guards is [200,300)->INFO, [300,400)->DEBUG, [400,500)->WARN, [500,600)->ERROR; the Location header is read only when the level is DEBUG; the record's level is level(recorded status)", 5)
+	ru := r.Rule("C20.2", "status -> level: the level function compares its argument only with constants; the interval map extracted from its guards is [200,300)->INFO, [300,400)->DEBUG, [400,500)->WARN, [500,600)->ERROR; the Location header is read only when the level is DEBUG; the record's level is level(recorded status)", 3)
 	lv := w.Func("level")
 	r.Analysed(FuncName(lv))
 	param := ssa.Value(lv.Params[0])
@@ -282,7 +282,7 @@ func checkC20Level(w *World, r *Report, logger *ssa.Function, emits []*ssa.Call)
 }
 
 func checkC20Message(w *World, r *Report, fn *ssa.Function, emits []*ssa.Call) {
-	ru := r.Rule("C20.3", "message fallback: the message is the resolved client IP when the resolver returns no error, the remote IP when the error is ErrNoClientIPResolver, and the constant \"unknown\" otherwise", 3)
+	ru := r.Rule("C20.3", "message fallback: the message is the resolved client IP when the resolver returns no error, the remote IP when the error is ErrNoClientIPResolver, and the constant \"unknown\" otherwise", 2)
 	// the message argument of LogAttrs is args[3] (recv, ctx, level, msg, attrs...)
 	for _, e := range emits {
 		if len(e.Call.Args) < 4 {
@@ -341,7 +341,7 @@ func checkC20Message(w *World, r *Report, fn *ssa.Function, emits []*ssa.Call) {
 }
 
 func checkC20Observes(w *World, r *Report, fn *ssa.Function, next *ssa.Call, emits []*ssa.Call) {
-	ru := r.Rule("C20.4", "observes only: the closure never calls recover, calls only read-only methods of the context and its writer, reads the status after the handler, and labels the record's status/method/host/path attributes with the values of the matching accessors", 6)
+	ru := r.Rule("C20.4", "observes only: the closure never calls recover, calls only read-only methods of the context and its writer, reads the status after the handler, and labels the record's status/method/host/path attributes with the values of the matching accessors", 3)
 	readOnly := map[string]bool{"Request": true, "Writer": true, "Status": true, "Header": true, "ClientIP": true, "RemoteIP": true, "Method": true, "Host": true, "Path": true, "Context": true, "Level": true, "String": true, "Written": true, "Size": true}
 	bad := ""
 	for _, g := range withAnon(fn) {
@@ -400,7 +400,7 @@ func checkC20Observes(w *World, r *Report, fn *ssa.Function, next *ssa.Call, emi
 }
 
 func checkC20Wiring(w *World, r *Report) {
-	ru := r.Rule("C20.5", "wiring: DefaultOptions registers Recovery (route scope) at position 0 and Logger (all scopes) at position 1 of a list prepended to the router's middleware", 2)
+	ru := r.Rule("C20.5", "wiring: DefaultOptions registers Recovery (route scope) at position 0 and Logger (all scopes) at position 1 of a list prepended to the router's middleware", 1)
 	def := w.Func("DefaultOptions")
 	for _, e := range collectMwEntries(w) {
 		if e.fn.Parent() != def {
